@@ -124,6 +124,9 @@ def St.popIf (st : St) (b : Bool) : St := if b then st.dropn 1 else st
 inductive Guard where
   | val (e : Expr)
   | cond (c : Cond)
+  /-- `case g(tag, e)`: a non-constant case expression with an observable side effect: evaluating it emits
+      the event `(tag, value)`; its value is compared with the switch tag -/
+  | eff (tag : Nat) (e : Expr)
   deriving Repr, DecidableEq, Inhabited
 
 /-- Structured statements.  Statement lists are right-nested `seq` chains ending in `skip`.
@@ -176,6 +179,9 @@ inductive Instr where
   | jmp (upn : Nat) (tgt : Nat)
   /-- conditional closures of `If` (Then/Else), `For` and `switchCase` (IP+1 / Break resp. iend) -/
   | cjmp (c : Cond) (tThen tElse : Nat)
+  /-- the comparison closure of `switchCase` when some case expression has a side effect:
+      expressions are evaluated in order until one equals the tag (IP+1), else `iend` -/
+  | casehdr (gs : List Guard) (tThen tElse : Nat)
   /-- `stmtReturn` -/
   | ret
   /-- `stmtNop` (reserved slot of the switch optimizer) -/
@@ -269,6 +275,21 @@ def guardCond (g : Guard) : Cond :=
   match g with
   | .val e => .eq (.var tagVar) e
   | .cond c => c
+  | .eff _ e => .eq (.var tagVar) e   -- (clauses with `eff` guards are compiled to `casehdr`, see below)
+
+def Guard.isEff : Guard → Bool
+  | .eff _ _ => true
+  | _ => false
+
+/-- Go: the expressions of a case clause are evaluated left to right until one equals the tag
+    (`cmpfuns[0](env) || cmpfuns[1](env) || ...` in `switchCase`); returns (matched, state after the
+    side effects of the expressions that were evaluated) -/
+def evalGuards (tagv : Int) (st : St) : List Guard → Bool × St
+  | [] => (false, st)
+  | .val e :: r => if e.eval st.stack = tagv then (true, st) else evalGuards tagv st r
+  | .cond c :: r => if c.eval st.stack then (true, st) else evalGuards tagv st r
+  | .eff t e :: r =>
+    if e.eval st.stack = tagv then (true, st.emit t e) else evalGuards tagv (st.emit t e) r
 
 /-- tag-less switch: constant-folded guards (`tag.Const()`): first `true` wins (`sometrue`), `false` skipped;
     returns (sometrue, remaining non-constant comparisons *before* the first constant true) -/
@@ -510,7 +531,8 @@ def compile : Stmt → Nat → Ctx → Code
       | none => .jmp 0 iend
       | some gs =>
         let (sometrue, cs) := foldGuards gs
-        if sometrue then .nop   -- side-effect free comparisons: "keep side effects" has nothing to keep
+        if gs.any Guard.isEff then .casehdr gs (base + 1) iend
+        else if sometrue then .nop   -- side-effect free comparisons: "keep side effects" has nothing to keep
         else match cs with
           | [] => .jmp 0 iend
           | _ => .cjmp (orConds cs) (base + 1) iend
@@ -568,6 +590,9 @@ def step (code : Code) (c : Cfg) : StepRes :=
     | .pop => .next ⟨c.ip + 1, c.st.dropn 1⟩
     | .jmp upn t => .next ⟨t, c.st.dropn upn⟩
     | .cjmp cnd a b => .next ⟨if cnd.eval c.st.stack then a else b, c.st⟩
+    | .casehdr gs a b =>
+      let r := evalGuards (lookup tagVar c.st.stack) c.st gs
+      .next ⟨if r.1 then a else b, r.2⟩
     | .ret => .halt c.st
     | .nop => .next ⟨c.ip + 1, c.st⟩
     | .fallthru => .next ⟨c.ip + 2, c.st⟩
@@ -633,16 +658,14 @@ def findLabel (l : Label) : Stmt → Option Stmt
   | .seq a b => if hasLabel l a then some (.seq a b) else findLabel l b
   | s => if hasLabel l s then some s else none
 
-def guardMatch (tagv : Int) (s : Stack) : Guard → Bool
-  | .val e => decide (e.eval s = tagv)
-  | .cond c => c.eval s
-
-/-- first clause (in source order) one of whose expressions equals the tag -/
-def selectCase (tagv : Int) (s : Stack) : Stmt → Option Stmt
+/-- first clause (in source order) one of whose expressions equals the tag, with the side effects of every
+    case expression evaluated on the way (left to right, top to bottom, until the first match) -/
+def selectCaseSt (tagv : Int) (st : St) : Stmt → Option Stmt × St
   | .clause (some gs) ft body rest =>
-    if gs.any (guardMatch tagv s) then some (.clause (some gs) ft body rest) else selectCase tagv s rest
-  | .clause none _ _ rest => selectCase tagv s rest
-  | _ => none
+    let r := evalGuards tagv st gs
+    if r.1 then (some (.clause (some gs) ft body rest), r.2) else selectCaseSt tagv r.2 rest
+  | .clause none _ _ rest => selectCaseSt tagv st rest
+  | _ => (none, st)
 
 def selectDefault : Stmt → Option Stmt
   | .clause none ft body rest => some (.clause none ft body rest)
@@ -729,13 +752,14 @@ def exec : Nat → Stmt → St → XRes
         let tagv : Int := match tag with
           | some e => e.eval st2.stack
           | none => 0
-        let sel := match selectCase tagv st2.stack cls with
+        let r := selectCaseSt tagv st2 cls
+        let sel := match r.1 with
           | some c => some c
           | none => selectDefault cls
         match sel with
-        | none => .ok .normal (st2.popIf loc)
+        | none => .ok .normal (r.2.popIf loc)
         | some c =>
-          match execClauses n c st2 with
+          match execClauses n c r.2 with
           | .ok o st3 =>
             let o' := match o with
               | .brk l => if labelIn l ls then Outcome.normal else o
